@@ -6,7 +6,7 @@ writes/reads/receives, closes and re-opens at arbitrary virtual times).
 Every route holds at least one queue (see SimVerif/Net.lean header)."""
 import random
 
-BW = [0, 20000, 100000, 1000000, 100000000]
+BW = [0, 20000, 100000, 1000000, 100000000, 56000, 1234567, 33333333]   # the last three do not divide 10^9 (C09 rounding)
 LAT = [0, 1000, 1000000, 10000000, 100000000]
 CAP = [0, 0, 1600, 3100, 20000, 200000]
 MTU = [1475, 1475, 100, 500, 1400, 3000]
@@ -26,7 +26,7 @@ class Cfg:
             if rng.random() < multi_p: ips.append("10.0.%d.2" % k)
             if v6: ips.append("2001::%d" % (k + 1))
             self.nodes.append(("n%d" % k, ips))
-        self.lines.append("hop net queue bw=%d lat=%d cap=0" % (rng.choice([0, 0, 10000000]), rng.choice(LAT)))
+        self.lines.append("hop net queue bw=%d lat=%d cap=0" % (rng.choice([0, 0, 10000000, 7000000]), rng.choice(LAT)))
         self.lines.append("route net * net")
         hid = 0
         for name, ips in self.nodes:
